@@ -245,7 +245,31 @@ def py_wf(seq):
     return None
 
 
+def fqn_monitor(ctx, uberjob):
+    """the function name that ends every 'run' scope is the name of THAT function, also in a long-lived process that has
+    created and dropped many callables (no cache keyed on recycled object identities)"""
+    from uberjob._util import fully_qualified_name
+    import gc
+    bad = None
+    for i in range(6000):
+        ns = {}
+        exec("def fn_%d():\n    return %d" % (i, i), ns)
+        f = ns["fn_%d" % i]
+        name = fully_qualified_name(f)
+        if not name.endswith("fn_%d" % i):
+            bad = (i, name)
+            break
+        del f, ns
+        if i % 512 == 0:
+            gc.collect()
+    ctx.case(("fqn-lifetimes",))
+    if bad:
+        ctx.fail("fqn:stale-name", "fully_qualified_name reports %r for the %d-th freshly created function fn_%d" % (bad[1], bad[0], bad[0]),
+                 {"index": bad[0], "reported": bad[1]})
+
+
 def run(ctx):
+    fqn_monitor(ctx, core.use_repo())
     uberjob = core.use_repo()
     import uberjob.progress  # noqa
     from uberjob._util import fully_qualified_name
